@@ -682,7 +682,7 @@ func TestC15Bytes(t *testing.T) {
 	total += int64(len(cases))
 	distinct += captured
 	if connects == 0 || reused == 0 {
-		core.HarnessError("vacuous: udp connects=%d reused=%d", connects, reused)
+		rep.Vacuous("vacuous: udp connects=%d reused=%d", connects, reused)
 	}
 	rep.Evaluations = total
 	rep.Distinct = distinct
